@@ -121,20 +121,34 @@ func TestC20Helpers(t *testing.T) {
 	m.Rule("random (x, exchange rate, difficulty, header) tuples incl. extremes (x in {0,1,MinQuaiConversionAmount±1,2^64,2^128,2^200}, rates 1..2^100 and the genesis rate, difficulties 1..2^80, zone numbers around QiActivationBlock and the OneOverKqi doubling periods): QiToQuai(QuaiToQi(x)) <= x, QuaiToQi(QiToQuai(y)) <= y at the same rate/difficulty/header; x <= x' => convert(x) <= convert(x') in both directions; results never negative; ApplyCubicDiscount(v, mean) in [0, v] and == 0 for v > 10*mean; FindMinDenominations(v): sum(count_d*Denominations[d]) <= v and v - sum < Denominations[0] (= 1 qit: the code decomposes exactly; nothing may be lost by the split itself); no panic")
 	m.Assume("negative inputs are never generated", "post-KawPow-fork header branches (difficulty rescaled from header share counters) only with difficulties >= 2*KQuaiDifficultyDivisor, below that the protocol's own reward formula is not defined (log difference negative)")
 	r := m.Rand("helpers")
-	n := m.N(120000, 3000000)
+	n := m.N(100000, 3000000)
 	smallest := types.Denominations[0]
+	// a pool of headers (building a work object is by far the most expensive step of a case)
+	type hdr struct {
+		c  hdrCase
+		wo *types.WorkObject
+	}
+	var pre, postH []hdr
+	for i := 0; i < 400; i++ {
+		c := pickHeader(r)
+		pre = append(pre, hdr{c, mkHeader(c)})
+	}
+	for i := 0; i < 60; i++ {
+		c := pickHeader(r)
+		c.Class = "post-kawpow"
+		c.PrimeTerminus = []uint64{params.KawPowForkBlock, params.KawPowForkBlock + 1, params.ShaEquivalentDifficultyForkBlock - 1, params.ShaEquivalentDifficultyForkBlock, params.ConversionStabilityForkBlock, params.ConversionStabilityForkBlock + 1000}[r.Intn(6)]
+		postH = append(postH, hdr{c, mkHeader(c)})
+	}
 	for i := 0; i < n; i++ {
-		h := pickHeader(r)
 		x, rate, diff := pickX(r), pickRate(r), pickDiff(r)
-		post := false
-		if i%10 == 9 {
+		post := i%10 == 9
+		hd := pre[r.Intn(len(pre))]
+		if post {
 			// a post-KawPow / post-SHA-anchoring header with a realistic difficulty
-			post = true
-			h.Class = "post-kawpow"
-			h.PrimeTerminus = []uint64{params.KawPowForkBlock, params.KawPowForkBlock + 1, params.ShaEquivalentDifficultyForkBlock - 1, params.ShaEquivalentDifficultyForkBlock, params.ConversionStabilityForkBlock, params.ConversionStabilityForkBlock + 1000}[r.Intn(6)]
+			hd = postH[r.Intn(len(postH))]
 			diff = new(big.Int).Add(new(big.Int).Mul(big.NewInt(2), new(big.Int).SetUint64(params.KQuaiDifficultyDivisor)), randBits(r, 40+r.Intn(40)))
 		}
-		wo := mkHeader(h)
+		h, wo := hd.c, hd.wo
 		wit := func() any {
 			return map[string]any{"case": i, "x": x.String(), "rate": rate.String(), "difficulty": diff.String(), "header": h}
 		}
